@@ -118,6 +118,10 @@ type cellAPI struct {
 	text                               func() string
 	satText                            func() string
 	wavelength                         float64
+	// via decoder, MSM7: the whole message's readable form, and a way to mark the satellite's range invalid
+	// in the decoded message afterwards (what a consumer that filters bad satellites does before printing)
+	msgText    func() string
+	invalidate func()
 }
 
 func build(c Case) (*cellAPI, error) {
@@ -176,7 +180,19 @@ func build(c Case) (*cellAPI, error) {
 				return nil, fmt.Errorf("decoder did not return the signal cell of satellite %d, signal %d (grid %v)", si+1, c.SignalID, c.Grid)
 			}
 			cell := &d.Signals[si][sj]
-			return &cellAPI{cell.RangeInMetres, cell.PhaseRange, cell.PhaseRangeRate, cell.PhaseRangeRateDoppler, cell.GetAggregateRange, cell.GetAggregatePhaseRange, cell.GetAggregatePhaseRangeRate, cell.String, d.Satellites[si].String, cell.Wavelength}, nil
+			return &cellAPI{cell.RangeInMetres, cell.PhaseRange, cell.PhaseRangeRate, cell.PhaseRangeRateDoppler, cell.GetAggregateRange, cell.GetAggregatePhaseRange, cell.GetAggregatePhaseRangeRate, cell.String, d.Satellites[si].String, cell.Wavelength,
+				d.String, func() {
+					for i := range d.Satellites {
+						d.Satellites[i].RangeWholeMillis = 255
+					}
+					for _, row := range d.Signals {
+						for i := range row {
+							if row[i].Satellite != nil {
+								row[i].Satellite.RangeWholeMillis = 255
+							}
+						}
+					}
+				}}, nil
 		}
 		d, err := msg4.GetMessage(m.Frame(), lv)
 		if err != nil {
@@ -186,16 +202,16 @@ func build(c Case) (*cellAPI, error) {
 			return nil, fmt.Errorf("decoder did not return the signal cell of satellite %d, signal %d (grid %v)", si+1, c.SignalID, c.Grid)
 		}
 		cell := &d.Signals[si][sj]
-		return &cellAPI{cell.RangeInMetres, cell.PhaseRange, nil, nil, cell.GetAggregateRange, cell.GetAggregatePhaseRange, nil, cell.String, d.Satellites[si].String, cell.Wavelength}, nil
+		return &cellAPI{cell.RangeInMetres, cell.PhaseRange, nil, nil, cell.GetAggregateRange, cell.GetAggregatePhaseRange, nil, cell.String, d.Satellites[si].String, cell.Wavelength, nil, nil}, nil
 	}
 	if c.MSM7 {
 		s := sat7.New(1, c.Whole, c.Frac, c.ExtInfo&15, int(c.RoughRate), lv)
 		cell := sig7.New(c.SignalID, s, int(c.RangeDelta), int(c.PhaseDelta), 1, false, 30, int(c.FineRate), lambda, lv)
-		return &cellAPI{cell.RangeInMetres, cell.PhaseRange, cell.PhaseRangeRate, cell.PhaseRangeRateDoppler, cell.GetAggregateRange, cell.GetAggregatePhaseRange, cell.GetAggregatePhaseRangeRate, cell.String, s.String, lambda}, nil
+		return &cellAPI{cell.RangeInMetres, cell.PhaseRange, cell.PhaseRangeRate, cell.PhaseRangeRateDoppler, cell.GetAggregateRange, cell.GetAggregatePhaseRange, cell.GetAggregatePhaseRangeRate, cell.String, s.String, lambda, nil, nil}, nil
 	}
 	s := sat4.New(1, c.Whole, c.Frac, lv)
 	cell := sig4.New(c.SignalID, s, int(c.RangeDelta), int(c.PhaseDelta), 1, false, 30, lambda, lv)
-	return &cellAPI{cell.RangeInMetres, cell.PhaseRange, nil, nil, cell.GetAggregateRange, cell.GetAggregatePhaseRange, nil, cell.String, s.String, lambda}, nil
+	return &cellAPI{cell.RangeInMetres, cell.PhaseRange, nil, nil, cell.GetAggregateRange, cell.GetAggregatePhaseRange, nil, cell.String, s.String, lambda, nil, nil}, nil
 }
 
 var foreignFirst sync.Once
@@ -339,6 +355,18 @@ func check(c Case, o *stats.Obs) error {
 			return fmt.Errorf("readable form of the signal does not show the quantities %v (range m, phase cycles[, Doppler Hz, rate m/s]) correctly rounded, in order (matched %d): %q [%s]", ws, n, api.text(), desc)
 		}
 		o.Class("display-checked")
+	}
+	// The readable form of the whole message is made from the message as it is now: shown once, then the
+	// consumer marks the satellites' ranges invalid, then shown again - the second text says so.
+	if api.msgText != nil && c.Whole != 255 {
+		first := api.msgText()
+		api.invalidate()
+		second := api.msgText()
+		if second == first || !strings.Contains(second, "invalid") {
+			o.Key = "display"
+			return fmt.Errorf("the readable form of a decoded MSM7 message does not change after its satellites' ranges were marked invalid (it was displayed once before): %q [%s]", second, desc)
+		}
+		o.Class("message-redisplayed-after-edit")
 	}
 	// MSM4 == MSM7 for the same quantity (constructed cells only).
 	if !c.MSM7 && !c.ViaDecoder && c.Whole != 255 {
